@@ -114,8 +114,9 @@ class Prop(BaseProp):
             mv = rep[1]
 
             def vproj(v):
+                # C03 says of validate only that it reports instead of raising (the content of the report is C11's)
                 if v[0] == 'info':
-                    return ['info', v[1], v[2] > 0, [P.fwords(x) for x in v[3]]]
+                    return ['info', v[2] > 0]
                 return v
             if vproj(iv) != vproj(mv):
                 return Verdict('diverge', case, 'Licensing.validate', impl=iv, model=mv, tags=tags)
